@@ -1,10 +1,178 @@
 import Driver.Common
-/-! Judge for C19: not built yet (stub so that the target exists). -/
-open Lean Driver
+import EgVerif.Spec.Syncer
+/-! Judges for C19: `C19` (syncer against an embedded etcd) and `C19eq` (isDataEqual, pure). -/
+open Lean Driver EgVerif.Syncer
 
 namespace Driver.C19
 
-def judges : List (String × Judge) := []
+def parseSub (j : Json) : Except String Sub := do
+  let op ← getStr j "op"
+  let k := optStr j "k"
+  let v := optStr j "v"
+  match op with
+  | "put" => pure (.put k v)
+  | "del" => pure (.del k)
+  | "delp" => pure (.delPrefix k)
+  | _ => throw s!"sub op {op}"
+
+def parseWrites (j : Json) (k : String) : Except String (List (List Sub)) := do
+  let a ← getArr j k
+  a.toList.mapM fun w => do
+    let ss ← getArr w "subs"
+    ss.toList.mapM parseSub
+
+def parsePairs (j : Json) : Except String (List (String × String)) := do
+  let a ← j.getArr?
+  a.toList.mapM fun p => do
+    let q ← p.getArr?
+    unless q.size == 2 do throw "pair"
+    let k ← q[0]!.getStr?
+    let v ← q[1]!.getStr?
+    pure (k, v)
+
+def toData (ps : List (String × String)) : Data := ps.map fun (k, v) => (k, some ⟨k, v⟩)
+
+def dataJson (d : Data) : Json :=
+  Json.arr (d.map (fun e => Json.arr #[Json.str e.1,
+    match e.2 with | none => Json.null | some kv => Json.str kv.value])).toArray
+
+/-- insertion sort by key, for a canonical rendering -/
+def sortData (d : Data) : Data :=
+  d.foldl (fun acc e =>
+    let (lo, hi) := acc.span (fun x => x.1 < e.1)
+    lo ++ [e] ++ hi) []
+
+def judge : Judge := liftJudge fun input obs => do
+  let mode ← getStr input "mode"
+  let key ← getStr input "key"
+  let init ← parseWrites input "init"
+  let writes ← parseWrites input "writes"
+  let seq := optBool input "seq"
+  let fault := optStr input "fault"
+  match obsPanic obs with
+  | some m => pure { agree := false, spec := false, sig := "panic-or-hang", note := m }
+  | none =>
+  match obs.getObjVal? "error" with
+  | .ok e => pure { agree := false, spec := true, note := "harness: " ++ e.compress, nontrivial := false }
+  | .error _ =>
+  let snapsJ ← getArr obs "snaps"
+  let snaps ← snapsJ.toList.mapM parsePairs
+  let finalJ ← obs.getObjVal? "final"
+  let final ← parsePairs finalJ
+  let writeErrs := optInt obs "writeErrs"
+  let faultDone := optBool obs "faultDone"
+  let pfx := mode == "prefix" || mode == "rawprefix"
+  let pre := init.length
+  let stores := storeStates [] (init ++ writes)
+  let states := stores.map (restrict pfx key)
+  let n := states.length - 1
+  let obsData := snaps.map toData
+  let ck := check states pre obsData
+  -- the store model itself against what etcd finally contains
+  let finalStore : Data := toData ((stores.getLast?.getD []))
+  let storeOK := mapEqB finalStore (toData final)
+  -- model run reproducing the observation
+  let S : Nat → Data := fun i => states.getD i []
+  -- linearisation point of the initial pull: `pre`, or (when the first snapshot is later / absent)
+  -- the first later index with an empty content, or the first snapshot's own index
+  let firstEmpty (lo hi : Nat) : Option Nat :=
+    (List.range (hi - lo)).map (· + lo) |>.find? fun j => (S j).isEmpty
+  let (pre', r0, rest) : Nat × Option Nat × List Nat :=
+    match ck.indices with
+    | [] => match firstEmpty pre (n + 1) with
+            | some j => (j, some j, [])
+            | none => (pre, some pre, [])
+    | i :: is =>
+      if i == pre then (pre, some pre, is)
+      else match firstEmpty pre i with
+           | some j => (j, some j, i :: is)
+           | none => (i, some i, is)
+  let tr := traceFor n pre' rest
+  let st := run S pre' r0 tr
+  let modelSnaps := st.sentRev.reverse.map (·.2)
+  let same (a b : List Data) : Bool := a.length == b.length && (a.zip b).all fun (x, y) => mapEqB x y
+  let agreeTrace := ck.real && validRun S pre' r0 tr && same modelSnaps obsData
+  -- deterministic prediction for sequentialised runs
+  let stSeq := run S pre (some pre) (seqTrace n pre)
+  let seqSnaps := stSeq.sentRev.reverse.map (·.2)
+  let clean := writeErrs == 0 && fault == ""
+  let agreeSeq := !(seq && clean) || same seqSnaps obsData
+  -- a failed write may or may not have been applied: such a case is inconclusive
+  if writeErrs != 0 then
+    return { agree := true, spec := true, tags := ["write-errors-inconclusive"], nontrivial := false }
+  let agree := storeOK && agreeTrace && agreeSeq
+  let spec := ck.real && ck.differ && ck.converged
+  let sig := if spec then "" else
+    if !ck.real then "phantom-or-reordered-snapshot"
+    else if !ck.differ then "duplicate-snapshot"
+    else "not-converged"
+  let changes := (states.zip (states.drop 1)).countP fun (a, b) => !mapEqB a b
+  let skipped := changes + (if (S pre).isEmpty then 0 else 1) > obsData.length
+  let hasOutside := (init ++ writes).any fun w => w.any fun s =>
+    match s with
+    | .put k _ => !(if pfx then key.isPrefixOf k else k == key)
+    | .del k => !(if pfx then key.isPrefixOf k else k == key)
+    | .delPrefix _ => false
+  let sameVal := (states.zip (states.drop 1)).any fun (a, b) => mapEqB a b
+  let tags := ["mode:" ++ mode, if seq then "sequential" else "free-running"]
+    ++ (if skipped then ["coalesced-states"] else [])
+    ++ (if hasOutside then ["outside-keys"] else [])
+    ++ (if sameVal then ["no-change-write"] else [])
+    ++ (if (S pre).isEmpty then ["start-empty"] else ["start-nonempty"])
+    ++ (if (S n).isEmpty then ["final-empty"] else [])
+    ++ (if optInt input "consumeUs" > 0 then ["slow-consumer"] else ["fast-consumer"])
+    ++ (if fault != "" then ["fault:" ++ fault ++ (if faultDone then ":done" else ":failed")] else [])
+    ++ (if obsData.length ≥ 10 then ["snaps>=10"] else if obsData.isEmpty then ["snaps=0"] else ["snaps<10"])
+  pure { agree := agree, spec := spec,
+         expected := Json.mkObj [("indices", Json.arr (ck.indices.map (fun (i : Nat) => Json.num i)).toArray),
+           ("final", dataJson (sortData (S n))),
+           ("seqPrediction", if seq then Json.arr (seqSnaps.map (fun d => dataJson (sortData d))).toArray else Json.null)],
+         tags := tags, nontrivial := changes ≥ 2 && !obsData.isEmpty, sig := sig,
+         note := if !storeOK then "store model differs from etcd content" else
+                 if !agreeSeq then "sequential prediction differs" else "" }
+
+/-! ### pure judge -/
+
+def parseEntries (j : Json) (k : String) : Except String (List (String × Option KV)) := do
+  let a ← getArr j k
+  a.toList.mapM fun e => do
+    let key ← getStr e "k"
+    if optBool e "nil" then pure (key, none)
+    else pure (key, some ⟨optStr e "kk", optStr e "kv"⟩)
+
+/-- Go map construction: a later entry with the same key overwrites. -/
+def mkMap (es : List (String × Option KV)) : Data :=
+  es.foldl (fun acc e => if (acc.lookup e.1).isSome then acc.map (fun x => if x.1 == e.1 then e else x) else acc ++ [e]) []
+
+def judgeEq : Judge := liftJudge fun input obs => do
+  let ea ← parseEntries input "a"
+  let eb ← parseEntries input "b"
+  match obsPanic obs with
+  | some m => pure { agree := false, spec := false, sig := "panic:isDataEqual", note := m }
+  | none =>
+  let a := mkMap ea
+  let b := mkMap eb
+  let eq ← getBool obs "eq"
+  let rev ← getBool obs "rev"
+  let self ← getBool obs "self"
+  let kvJ ← getArr obs "kveq"
+  let kveq ← kvJ.toList.mapM (·.getBool?)
+  let wantKV := (ea.zip eb).map fun (x, y) => isKeyValueEqual x.2 y.2
+  let wantEq := isDataEqual a b
+  let agree := eq == wantEq && rev == isDataEqual b a && self == isDataEqual a a && kveq == wantKV
+    && optInt obs "lenA" == a.length && optInt obs "lenB" == b.length
+  -- the property: equal exactly when the maps are equal as key → (key,value) maps
+  let sem := mapEqB a b
+  let spec := eq == sem && rev == sem && self
+  let hasNil := (ea ++ eb).any (·.2.isNone)
+  let tags := [if sem then "equal" else "different"]
+    ++ (if a.length == b.length then ["same-size"] else ["size-differs"])
+    ++ (if hasNil then ["nil-entry"] else []) ++ (if a.isEmpty || b.isEmpty then ["empty-map"] else [])
+  pure { agree := agree, spec := spec, expected := Json.mkObj [("eq", wantEq), ("semantic", sem)],
+         tags := tags, nontrivial := a.length == b.length && !a.isEmpty,
+         sig := if spec then "" else "isDataEqual-wrong" }
+
+def judges : List (String × Judge) := [("C19", judge), ("C19eq", judgeEq)]
 
 end Driver.C19
 
